@@ -131,3 +131,8 @@ Proof.
     apply nth_upd_same. exact Hj.
   - apply IH; [exact ND'|exact Hin|]. rewrite upd_length. exact Hj.
 Qed.
+
+Lemma nth_repeat_lt {A} (a d : A) (m j : nat) : j < m -> nth j (repeat a m) d = a.
+Proof.
+  revert j; induction m as [|m IH]; intros j H; [lia|]. destruct j; simpl; [reflexivity|]. apply IH. lia.
+Qed.
